@@ -123,3 +123,72 @@ pub fn any_xonly() -> bitcoin::secp256k1::XOnlyPublicKey {
     while i < 32 { raw[i] = x[i]; i += 1; }
     bitcoin::secp256k1::XOnlyPublicKey::from(unsafe { sffi::XOnlyPublicKey::from_array_unchecked(raw) })
 }
+
+// ------------------------------------------------------------------ secp256k1-zkp
+// ASSUMED CONTRACT: `pedersen_commitment_parse` accepts a 33-byte string only if its first byte is 8 or 9 and is then
+// an injection whose inverse is `pedersen_commitment_serialize`; `generator_parse` likewise with prefix 10 or 11;
+// (the models accept every such string). `rangeproof_info` accepts exactly the byte strings the library considers
+// structurally valid range proofs; the model accepts every non-empty string (over-approximation of the accept set).
+pub use secp256k1_zkp::ffi as zffi;
+
+pub unsafe fn model_pedersen_commitment_parse(_cx: *const zffi::Context, commit: *mut zffi::PedersenCommitment, input: *const c_uchar) -> c_int {
+    let p = *input;
+    if p != 8 && p != 9 { return 0; }
+    // repr(C) newtype over [u8; 64]
+    let out = commit as *mut c_uchar;
+    let mut i = 0;
+    while i < 64 { *out.add(i) = if i < 33 { *input.add(i) } else { 0 }; i += 1; }
+    1
+}
+pub unsafe fn model_pedersen_commitment_serialize(_cx: *const zffi::Context, output: *mut c_uchar, commit: *const zffi::PedersenCommitment) -> c_int {
+    let inp = commit as *const c_uchar;
+    let mut i = 0;
+    while i < 33 { *output.add(i) = *inp.add(i); i += 1; }
+    1
+}
+pub unsafe fn model_generator_parse(_cx: *const zffi::Context, out: *mut zffi::PublicKey, input: *const c_uchar) -> c_int {
+    let p = *input;
+    if p != 10 && p != 11 { return 0; }
+    let mut raw = [0u8; 64];
+    let mut i = 0;
+    while i < 33 { raw[i] = *input.add(i); i += 1; }
+    *out = zffi::PublicKey::from_array_unchecked(raw);
+    1
+}
+pub unsafe fn model_generator_serialize(_cx: *const zffi::Context, output: *mut c_uchar, gen: *const zffi::PublicKey) -> c_int {
+    let raw = (*gen).underlying_bytes();
+    let mut i = 0;
+    while i < 33 { *output.add(i) = raw[i]; i += 1; }
+    1
+}
+pub unsafe fn model_rangeproof_info(_cx: *const zffi::Context, _exp: *mut c_int, _mantissa: *mut c_int, _min: *mut u64, _max: *mut u64, _proof: *const c_uchar, plen: size_t) -> c_int {
+    if plen == 0 { 0 } else { 1 }
+}
+
+/// A Pedersen commitment in the model's canonical form, built through the (stubbed) real parser.
+/// Requires `#[kani::stub(zffi::secp256k1_pedersen_commitment_parse, model_pedersen_commitment_parse)]` on the harness.
+pub fn any_pedersen() -> secp256k1_zkp::PedersenCommitment {
+    let mut b: [u8; 33] = kani::any();
+    b[0] = if kani::any() { 8 } else { 9 };
+    match secp256k1_zkp::PedersenCommitment::from_slice(&b) {
+        Ok(c) => c,
+        Err(e) => { core::mem::forget(e); kani::assume(false); unreachable!() }
+    }
+}
+/// Requires the `generator_parse` stub.
+pub fn any_generator() -> secp256k1_zkp::Generator {
+    let mut b: [u8; 33] = kani::any();
+    b[0] = if kani::any() { 10 } else { 11 };
+    match secp256k1_zkp::Generator::from_slice(&b) {
+        Ok(c) => c,
+        Err(e) => { core::mem::forget(e); kani::assume(false); unreachable!() }
+    }
+}
+/// Requires the `rangeproof_info` stub. 3 symbolic bytes.
+pub fn any_rangeproof3() -> Box<secp256k1_zkp::RangeProof> {
+    let b: [u8; 3] = kani::any();
+    match secp256k1_zkp::RangeProof::from_slice(&b) {
+        Ok(c) => Box::new(c),
+        Err(e) => { core::mem::forget(e); kani::assume(false); unreachable!() }
+    }
+}
